@@ -477,7 +477,7 @@ macro_rules! in_agrees_with_eq_harness {
     };
 }
 
-// @verif-block props=C07 tier=quick cap=900 group=core doc=ops::contains_on_a_one-element_list:_`needle_in_[elem]`_is_exactly_`elem_==_needle`_for_the_listed_kinds_of_element_and_needle_built_from_ANY_i64_n_(membership_follows_equality,_also_where_equality_coerces_across_kinds)
+// @verif-block props=C07 tier=experimental cap=900 group=core doc=ops::contains_on_a_one-element_list:_`needle_in_[elem]`_is_exactly_`elem_==_needle`_for_the_listed_kinds_of_element_and_needle_built_from_ANY_i64_n_(membership_follows_equality,_also_where_equality_coerces_across_kinds)
 in_agrees_with_eq_harness!(c07_in_list_int_vs_bool, |n| Value::from(n), |n| Value::from(n == 1));
 in_agrees_with_eq_harness!(c07_in_list_bool_vs_int, |n| Value::from(n % 2 == 0), |n| Value::from(n));
 in_agrees_with_eq_harness!(c07_in_list_int_vs_int, |n| Value::from(n), |n| Value::from(n ^ 1));
